@@ -202,6 +202,9 @@ CASES = [
                                                   ("D", ("start", 20), 1 * H, 2 * H, "CEST")]),
     dict(name="RDATE repeats DTSTART", obs=[("S", ("rdate", 10, [10, 30], "single"), 2 * H, 1 * H, "CET"),
                                            ("D", ("start", 20), 1 * H, 2 * H, "CEST")]),
+    # RDATE is a set of onsets: one that lies before the observance's DTSTART still counts
+    dict(name="RDATE onset earlier than DTSTART", obs=[("S", ("rdate", 30, [10, 50], "single"), 2 * H, 1 * H, "CET"),
+                                                      ("D", ("rdate", 20, [40], "single"), 1 * H, 2 * H, "CEST")]),
     dict(name="RRULE onsets", obs=[("S", ("rrule", 5), 2 * H, 1 * H, "CET"),
                                    ("D", ("rrule", 1), 1 * H, 2 * H, "CEST")]),
     dict(name="RRULE east of UTC, large offset", obs=[("S", ("rrule", 5), 13 * H, 12 * H, "NZST"),
